@@ -332,35 +332,69 @@ def _in_loop_only(g, rnodes, targets) -> bool:
 
 # ------------------------------------------------------------------------------------- chunk
 def check_chunk(ctx, rule: str, sites: List[Tuple[str, str]]) -> None:
-    """chunksize = len(items) // p is dominated by p = min(p, len(items)) and guarded by p > 1."""
+    """The chunk size handed to the pool is at least 1: the expression that computes it is evaluated over a grid of
+    (number of items, processes), restricted to the points the surrounding code lets through (a clamp
+    `p = min(p, len(items))` that dominates it, a guard `p > 1` around it). Any spelling of the expression is accepted;
+    what cannot be evaluated is left undecided (note)."""
     prog, eff = ctx.prog, ctx.eff
     for mod, short in sites:
         fn = prog.func(mod, short)
-        chunks = [n for n in walk_local(fn.node) if isinstance(n, ast.Assign) and isinstance(n.value, ast.BinOp) and isinstance(n.value.op, ast.FloorDiv)]
+        chunks = [n for n in walk_local(fn.node) if isinstance(n, ast.Assign) and len(n.targets) == 1 and isinstance(n.targets[0], ast.Name) and any(isinstance(x, ast.BinOp) and isinstance(x.op, (ast.FloorDiv, ast.Div)) for x in ast.walk(n.value)) and "chunk" in n.targets[0].id.lower()]
         if not chunks:
-            ctx.bad(rule, fn, fn.node, "chunk size computation not found")
+            ctx.note(f"{rule}: no chunk size computation in a familiar spelling in {fn.short}; not read")
             continue
         for c in chunks:
-            num, den = c.value.left, c.value.right
-            if not (isinstance(den, ast.Name) and isinstance(num, ast.Call) and norm(num.func) == "len"):
-                ctx.bad(rule, fn, c, "chunk size is not `len(items) // processes`")
+            lens = [x for x in ast.walk(c.value) if isinstance(x, ast.Call) and norm(x.func) == "len" and x.args]
+            names = [x.id for x in ast.walk(c.value) if isinstance(x, ast.Name) and isinstance(x.ctx, ast.Load) and x.id not in ("len", "max", "min", "int")]
+            dens = [x.right.id for x in ast.walk(c.value) if isinstance(x, ast.BinOp) and isinstance(x.op, (ast.FloorDiv, ast.Div)) and isinstance(x.right, ast.Name)]
+            if not lens or not dens:
+                ctx.note(f"{rule}: the chunk size of {fn.short} is not computed from len(items) and a process count in a recognised way; not read")
                 continue
-            items = norm(num.args[0])
+            den = dens[0]
+            items = norm(lens[0].args[0])
             clamps = []
             for n in walk_local(fn.node):
-                if isinstance(n, ast.Assign) and any(isinstance(t, ast.Name) and t.id == den.id for t in n.targets) and isinstance(n.value, ast.Call) and norm(n.value.func) == "min":
+                if isinstance(n, ast.Assign) and any(isinstance(t, ast.Name) and t.id == den for t in n.targets) and isinstance(n.value, ast.Call) and norm(n.value.func) == "min":
                     args = [norm(a) for a in n.value.args]
-                    if den.id in args and (f"len({items})" in args or any(_is_len_alias(ctx, fn, a, items) for a in n.value.args)):
+                    if den in args and (any(a_.startswith("len(") for a_ in args) or any(isinstance(a_, ast.Name) and _is_len_alias(ctx, fn, a_, items) for a_ in n.value.args)):
                         clamps.append(n)
-            guard = [a for a in ancestors(c) if isinstance(a, ast.If) and norm(a.test) == f"{den.id} > 1"]
-            if not clamps:
-                ctx.bad(rule, fn, c, f"`{den.id}` is not clamped to the number of items before the chunk size is computed: with more processes than items the chunk size is 0 and the pool rejects it")
-            elif not eff.dominated_by(fn, c, clamps):
-                ctx.bad(rule, fn, c, f"the clamp `{den.id} = min({den.id}, len({items}))` does not dominate the chunk size computation")
-            elif not guard:
-                ctx.bad(rule, fn, c, f"the chunk size is computed without the `{den.id} > 1` guard (division by zero for an empty item list)")
+            clamped = bool(clamps) and eff.dominated_by(fn, c, clamps)
+            guards = [a for a in ancestors(c) if isinstance(a, ast.If) and any(c is x or c in ast.walk(x) for x in a.body)]
+            problems = []
+            evaluated = 0
+            for n_items in range(0, 7):
+                for p_ in range(1, 6):
+                    if clamped and p_ > max(n_items, 0):
+                        continue
+                    env = {den: p_}
+
+                    def on_call(ev, call: ast.Call, _n=n_items):
+                        if norm(call.func) == "len" and call.args:
+                            return _n
+                        return NotImplemented
+
+                    ev = Evaluator(env, on_call=on_call)
+                    try:
+                        if not all(ev.truth(g_.test) for g_ in guards if any(isinstance(x, ast.Name) and x.id == den for x in ast.walk(g_.test))):
+                            continue
+                        v = ev.eval(c.value)
+                    except (Unknown, EvalRaise):
+                        problems = None
+                        break
+                    if isinstance(v, Opaque):
+                        problems = None
+                        break
+                    evaluated += 1
+                    if not (isinstance(v, (int, float)) and v >= 1):
+                        problems.append(f"{n_items} item(s), {p_} process(es): chunk size {v!r}")
+                if problems is None:
+                    break
+            if problems is None or not evaluated:
+                ctx.note(f"{rule}: the chunk size expression of {fn.short} cannot be evaluated; not read")
+            elif problems:
+                ctx.bad(rule, fn, c, f"the chunk size handed to the pool can be smaller than 1 ({problems[0]}{', +' + str(len(problems) - 1) + ' more' if len(problems) > 1 else ''}): the pool rejects a chunk size of 0{'' if clamped else ' (the process count is not clamped to the number of items before)'}")
             else:
-                ctx.ok(rule, fn, c, f"chunk size >= 1: clamp dominates and `{den.id} > 1` guards")
+                ctx.ok(rule, fn, c, f"chunk size >= 1 on all {evaluated} grid points the surrounding clamp / guard let through (evaluated)")
 
 
 def _is_len_alias(ctx, fn: FuncInfo, a: ast.AST, items: str) -> bool:
